@@ -315,8 +315,11 @@ def spread_cases(tier, seed):
         start = (i * 7 + seed) % len(NAME_POOL)
         nodes = [NAME_POOL[(start + j * 5) % len(NAME_POOL)] for j in range(n)]
         nodes = list(dict.fromkeys(nodes))
+        # keys whose score for one of the nodes is the least or the greatest a 32-bit hash gives (0, 1, 2**32-2, 2**32-1): solved
+        # for with the reference hash (vlib/refhash.py) - one key in four thousand million, no random corpus contains one
+        extreme = [refhash.preimage_suffix((str(nd) + "-").encode("latin-1"), t).decode() for nd in nodes[:4] for t in (0, 1, 2 ** 32 - 2, 2 ** 32 - 1)]
         yield {"nodes": nodes, "hash": "murmur", "hseed": 0, "kseed": seed * 1000 + i,
-               "nkeys": 2000 if tier == "quick" else 5000, "extra_keys": [], "history": [[0, 0], [0, 1], [1, 0], [0, 0]],
+               "nkeys": 2000 if tier == "quick" else 5000, "extra_keys": extreme, "history": [[0, 0], [0, 1], [1, 0], [0, 0]],
                "spread": True}
 
 
